@@ -60,3 +60,63 @@ Section BM.
     cbn [fst snd map] in *. destruct IH as [-> ->]. rewrite Ho. split; reflexivity.
   Qed.
 End BM.
+
+(* ---- keystream cores as dispatched by the interpreter ---- *)
+From BM Require Import Ctr_proofs Belt_proofs Ints Ints_proofs.
+
+Section Cores.
+  Variable C : cipher.
+
+  Lemma kscore_ctr_gen_n cs be n cn :
+    gen_n (kscore C (SCtr cs be)) n (CCtr cn) =
+    let '(cn', bl) := ctr_gen_n (mkflavor cs be) C n cn in (CCtr cn', bl).
+  Proof.
+    revert cn; induction n as [|n IH]; intros cn; [reflexivity|].
+    cbn [gen_n ctr_gen_n]. cbn [kscore sc_gen]. destruct (ctr_gen (mkflavor cs be) C cn) as [cn1 b].
+    rewrite IH. destruct (ctr_gen_n (mkflavor cs be) C n cn1); reflexivity.
+  Qed.
+
+  Lemma kscore_belt_gen_n n st :
+    gen_n (kscore C SBelt) n (CBelt st) = let '(st', bl) := belt_gen_n C n st in (CBelt st', bl).
+  Proof.
+    revert st; induction n as [|n IH]; intros st; [reflexivity|].
+    cbn [gen_n belt_gen_n]. cbn [kscore sc_gen]. destruct (belt_gen C st) as [st1 b].
+    rewrite IH. destruct (belt_gen_n C n st1); reflexivity.
+  Qed.
+
+  Lemma kscore_ofb_gen_n n iv :
+    gen_n (kscore C SOfb) n (COfb iv) = (COfb (iter_E (c_E C) n iv), ofb_ks (c_E C) iv n).
+  Proof.
+    revert iv; induction n as [|n IH]; intros iv; [reflexivity|].
+    cbn [gen_n ofb_ks]. cbn [kscore sc_gen]. unfold ofb_gen. rewrite IH. cbn [iter_E]. now rewrite iter_E_shift.
+  Qed.
+
+  (* the parallel generation of every core is w single generations (on the state shape it owns) *)
+  Lemma kscore_par_ctr cs be cn :
+    sc_gen_par (kscore C (SCtr cs be)) (CCtr cn) = gen_n (kscore C (SCtr cs be)) (sc_w (kscore C (SCtr cs be))) (CCtr cn).
+  Proof. rewrite kscore_ctr_gen_n. cbn [kscore sc_gen_par sc_w]. now rewrite ctr_gen_par_ok. Qed.
+
+  Lemma kscore_par_belt st :
+    sc_gen_par (kscore C SBelt) (CBelt st) = gen_n (kscore C SBelt) (sc_w (kscore C SBelt)) (CBelt st).
+  Proof. rewrite kscore_belt_gen_n. cbn [kscore sc_gen_par sc_w]. now rewrite belt_gen_par_ok. Qed.
+
+  Definition is_ctr (s : cstate) := match s with CCtr _ => True | _ => False end.
+  Definition is_belt (s : cstate) := match s with CBelt _ => True | _ => False end.
+  Definition is_ofb (s : cstate) := match s with COfb _ => True | _ => False end.
+
+  Theorem kscore_ks_blocks :
+    (forall cs be n cn, ks_blocks (kscore C (SCtr cs be)) n (CCtr cn) = gen_n (kscore C (SCtr cs be)) n (CCtr cn)) /\
+    (forall n st, ks_blocks (kscore C SBelt) n (CBelt st) = gen_n (kscore C SBelt) n (CBelt st)) /\
+    (forall n iv, ks_blocks (kscore C SOfb) n (COfb iv) = gen_n (kscore C SOfb) n (COfb iv)).
+  Proof.
+    split; [|split]; intros.
+    - apply ks_blocks_gen_n with (P := is_ctr); [| |exact I].
+      + intros [cn0| |] H; try contradiction. cbn [kscore sc_gen]. destruct (ctr_gen _ C cn0); exact I.
+      + intros [cn0| |] H; try contradiction. apply kscore_par_ctr.
+    - apply ks_blocks_gen_n with (P := is_belt); [| |exact I].
+      + intros [|?|st0] H; try contradiction. cbn [kscore sc_gen]. destruct (belt_gen C st0); exact I.
+      + intros [|?|st0] H; try contradiction. apply kscore_par_belt.
+    - (* OfbCore's backend declares ParBlocksSize = 1: only the single-block loop exists *)
+      reflexivity.
+  Qed.
+End Cores.
